@@ -45,6 +45,20 @@
 (* is FALSE for every type in the registered configurations and TRUE in    *)
 (* TimeDur_C15dev.cfg, where TLC must refute the round trip.               *)
 (*                                                                         *)
+(* Size and shape (section "EntitiesDescriptor trees"): a generated        *)
+(* EntitiesDescriptor value is a TREE of groups - a chain of single        *)
+(* children, then a fan-out per level, with or without EntityDescriptor    *)
+(* leaves.  EntitiesDescriptor.UnmarshalXML keeps a per-decoder counter of *)
+(* the elements it is inside of and refuses a document when an element     *)
+(* finds the counter at NestingBound (metadata.go: maxEntitiesDescriptor-  *)
+(* Depth); a finished element puts the counter back.  The named deviation  *)
+(*   CounterCountsElements   the counter is not put back when a nested     *)
+(*                           element is done: it counts elements in        *)
+(*                           document order instead of nesting depth       *)
+(* is FALSE in the registered configurations and TRUE in                   *)
+(* TimeDur_C15dev2.cfg, where TLC must refute the fixed point of a WIDE    *)
+(* value (1000 or more groups, depth 2 or 3).                              *)
+(*                                                                         *)
 (* Layer 2, "Properties": written from the property statement only: an     *)
 (* independent recogniser (DFA) of the xsd:duration lexical space, the     *)
 (* table of documented dateTime forms, RoundMs, and the round-trip /       *)
@@ -55,7 +69,9 @@ EXTENDS Integers, Sequences, FiniteSets, TLC, Json
 
 CONSTANTS Tier,                       \* "q" | "t" : size of the enumerated families
           PointerReceiverMarshaller,  \* named deviation: type name -> BOOLEAN
-          Families                    \* the kinds Init enumerates (all of them in the registered configurations)
+          Families,                   \* the kinds Init enumerates (all of them in the registered configurations)
+          NestingBound,               \* how deeply EntitiesDescriptor elements may nest before the parser refuses (metadata.go: 1000)
+          CounterCountsElements       \* named deviation: the parser's nesting counter is not restored when a nested element is done
 
 VARIABLES kind,     \* "dur" | "durstr" | "inst" | "inststr" | "md" | "esd" | "spmd" | "idpmd" | "slots"
           vec,      \* the abstract input
@@ -486,12 +502,43 @@ Gen(v, h) ==
                         !.idp.eps = EpsGen(v.idp.eps), !.sp.eps = EpsGen(v.sp.eps),
                         !.shadow = FALSE]]           \* ShadowedIdPArtifactResolution: never written
 
+(* EntitiesDescriptor trees.  A tree is [chain, fan, leaves]:                                              *)
+(*   chain   n >= 1 elements nested in one another, the root first (n = 1: the root alone)             *)
+(*   fan     <<f1, ..., fk>>: the last element of the chain has f1 children, each of them f2, ...      *)
+(*   leaves  EntityDescriptor children of every deepest group                                          *)
+(* The tree is never walked element by element (TLC recursion is bounded and a chain may be a thousand *)
+(* deep): the counter an element finds on entry is given in closed form, level by level.               *)
+Tree(chain, fan, leaves) == [chain |-> chain, fan |-> fan, leaves |-> leaves]
+NoTree == Tree(1, <<>>, 0)
+\* number of EntitiesDescriptor elements of the sub-tree below (and including) one element of fan level l
+\* (l = 0: the last element of the chain)
+RECURSIVE FanSize(_, _)
+FanSize(fan, l) == IF l >= Len(fan) THEN 1 ELSE 1 + fan[l + 1] * FanSize(fan, l + 1)
+TreeElements(t) == (t.chain - 1) + FanSize(t.fan, 0)
+TreeDepth(t)    == t.chain + Len(t.fan)
+\* an EntitiesDescriptor value as a whole: the classic shapes have `nested` one-level children and no tree
+EsdElements(v) == TreeElements(v.tree) + v.nested
+EsdDepth(v)    == IF v.nested > 0 /\ TreeDepth(v.tree) < 2 THEN 2 ELSE TreeDepth(v.tree)
+
+(* metadata.go EntitiesDescriptor.UnmarshalXML: depth := counter[d]; refuse when depth >= bound;       *)
+(* counter[d] = depth + 1; decode the children; deferred: put depth back (delete at the outermost).    *)
+(* The largest value an element finds on entry:                                                        *)
+(*   the code as it is       every element finds the number of its ANCESTORS (each finished sibling    *)
+(*                           has put the counter back): the deepest element finds depth - 1;           *)
+(*   CounterCountsElements   nothing is put back before the outermost element is done: an element      *)
+(*                           finds the number of elements that STARTED before it in document order:    *)
+(*                           the last one finds elements - 1.                                          *)
+LargestCounterOnEntry(v) == IF CounterCountsElements THEN EsdElements(v) - 1 ELSE EsdDepth(v) - 1
+ReparseRefused(v) == LargestCounterOnEntry(v) >= NestingBound
+\* xml.Marshal has no such bound: every tree is written
+Marshals(v) == TRUE
+
 \* EntitiesDescriptor: optional parts are pointers ("nil" when absent); nested children (slice elements)
 \* carry the same cache duration as the root
 EsdGen(v, h) ==
   LET root == CdVia(EsdSlots(<<>>)[2], v.cd.p, v.cd.v, h)
       kid  == CdVia(EsdSlots(<<"field", "elem">>)[2], v.cd.p, v.cd.v, h)
-  IN IF ~root.ok \/ (v.nested > 0 /\ ~kid.ok) THEN [err |-> TRUE, v |-> v]
+  IN IF ~root.ok \/ (v.nested > 0 /\ ~kid.ok) \/ ReparseRefused(v) THEN [err |-> TRUE, v |-> v]
      ELSE [err |-> FALSE,
            v |-> [v EXCEPT !.vu = IF v.vu.p THEN [p |-> TRUE, v |-> RoundVU(v.vu.v)] ELSE v.vu,
                            !.cd = IF root.p THEN [p |-> TRUE, v |-> root.d] ELSE [p |-> FALSE, v |-> DurZero]]]
@@ -661,11 +708,26 @@ KeysO == IF Q THEN {"none", "both", "multiline"} ELSE KeyCls
 
 \* EntitiesDescriptor shapes: pointer-valued optional parts
 PtrNil == [p |-> FALSE, v |-> 0]
-EsdShapes == { [id |-> id, name |-> nm, vu |-> vu, cd |-> cd, nested |-> ne, eds |-> n] :
+EsdShapes == { [id |-> id, name |-> nm, vu |-> vu, cd |-> cd, nested |-> ne, eds |-> n, tree |-> NoTree] :
                  id \in BOOLEAN, nm \in BOOLEAN,
                  vu \in { [p |-> FALSE, v |-> [z |-> TRUE, ms |-> 0, sub |-> 0]] } \cup { [p |-> TRUE, v |-> x] : x \in VUs },
                  cd \in { [p |-> FALSE, v |-> DurZero] } \cup { [p |-> TRUE, v |-> x] : x \in CDs },
                  ne \in 0..1, n \in 0..2 }
+\* size and shape: children per level x depth x leaves.  Widths around the nesting bound (a counter that counts
+\* siblings trips there) and two moderate ones for the three-level trees; chains around the bound itself.
+\* MaxTreeElements keeps the documents small (a group without content is some sixty bytes).
+Widths == {1, 2, 30, 40, NestingBound - 1, NestingBound, NestingBound + 1, NestingBound + 200}
+MaxTreeElements == 2 * NestingBound + 500
+Fans == {<<>>} \cup { <<a>> : a \in Widths } \cup { <<a, b>> : a \in Widths, b \in Widths }
+Chains == {1, 2, 3, NestingBound - 1, NestingBound, NestingBound + 1}
+EsdTrees == { t \in { Tree(c, f, l) : c \in Chains, f \in Fans, l \in 0..1 } :
+                /\ t # NoTree
+                /\ TreeElements(t) <= MaxTreeElements
+                /\ (t.chain > 3 => Len(t.fan) <= 1 /\ \A i \in DOMAIN t.fan : t.fan[i] <= 2) }   \* deep chains end in a small fan
+EsdTreeShapes == { [id |-> FALSE, name |-> TRUE, vu |-> vu, cd |-> cd, nested |-> 0, eds |-> 0, tree |-> t] :
+                     vu \in { [p |-> FALSE, v |-> [z |-> TRUE, ms |-> 0, sub |-> 0]] },
+                     cd \in { [p |-> FALSE, v |-> DurZero], [p |-> TRUE, v |-> Dur(FALSE, 1, 0, 0, Zero9)] },
+                     t \in EsdTrees }
 
 \* configurations of the two metadata generators
 SpCfgs == { [cert |-> c, sigm |-> sm, slo |-> slo, eid |-> e, valid |-> vd, nidf |-> nf, now |-> nw, inter |-> im] :
@@ -685,7 +747,7 @@ IsInstCore(t) == /\ <<t.y, t.mo, t.d>> \in {<<1, 1, 1>>, <<2024, 2, 29>>, <<9999
                  /\ t.off \in {0, 840, -330}
 IsMdCore(v) == /\ v.eid = "url" /\ v.keys = "both" /\ ~v.org /\ ~v.contact /\ ~v.shadow
                /\ v.idp = GoodIdp /\ (Q => v.sp = GoodSp)
-IsEsdCore(v) == ~v.id /\ (Q => v.name)
+IsEsdCore(v) == ~v.id /\ (Q => v.name) /\ v.tree = NoTree       \* the parser's counter lives in the decoder: no mode reaches it
 ReprHows   == { h \in StructHows : h.n \in {"marshal:ptr", "marshal:val"} }
 \* ServeMetadata writes MarshalIndent(ptr); samlidp's service handler writes Encode(value)
 ServedHows == { h \in StructHows : h.n \in {"indent:ptr", "marshal:ptr", "marshal:val", "indent:val", "encode:val"} }
@@ -724,6 +786,7 @@ SlotVecs(ty) ==
 Fam(k) == k \in Families
 AllFamilies == {"dur", "durstr", "inst", "inststr", "md", "esd", "spmd", "idpmd", "slots"}
 DevFamilies == {"slots"}                              \* TimeDur_C15dev.cfg
+EsdFamily   == {"esd"}                                \* TimeDur_C15dev2.cfg
 
 Init == /\ \/ /\ Fam("dur") /\ kind = "dur" /\ pc = "marshal"
               /\ \E n \in BOOLEAN, w \in Whole, f \in Fracs :
@@ -738,7 +801,7 @@ Init == /\ \/ /\ Fam("dur") /\ kind = "dur" /\ pc = "marshal"
                  \/ \E eid \in EidO, id \in BOOLEAN, vu \in VUs, cd \in CdO, keys \in KeysO, org \in BOOLEAN,
                        contact \in BOOLEAN, idp \in {NoRole, GoodIdp}, sp \in {NoRole, GoodSp}, sh \in BOOLEAN :
                       vec = Shape(eid, id, vu, cd, keys, org, contact, idp, sp, sh) /\ (sh => idp.p)
-           \/ Fam("esd") /\ kind = "esd"     /\ vec \in EsdShapes /\ pc = "gen1"
+           \/ Fam("esd") /\ kind = "esd"     /\ vec \in EsdShapes \cup EsdTreeShapes /\ pc = "gen1"
            \/ Fam("spmd") /\ kind = "spmd"    /\ vec \in SpCfgs   /\ pc = "gen1"
            \/ Fam("idpmd") /\ kind = "idpmd"   /\ vec \in IdpCfgs  /\ pc = "gen1"
            \/ /\ Fam("slots") /\ kind = "slots" /\ pc = "marshal"
@@ -930,8 +993,18 @@ MdFixedPoint == Done /\ kind = "md" /\ ~back[1].err => ~back[2].err /\ back[2].v
 MdPreserves  == Done /\ kind = "md" /\ MdClass(vec) = "MustAccept" => ~back[1].err /\ Preserves(vec, back[1].v)
 \* a cache duration that is present and 0 is the same value as an absent one
 CdSame(a, b) == IF a.p /\ ~MagZero(a.v) THEN b = a ELSE ~b.p \/ MagZero(b.v)
-EsdFixedPoint == Done /\ kind = "esd" => /\ ~back[1].err /\ Len(back) = 2 /\ ~back[2].err /\ back[2].v = back[1].v
+\* "all generated EntitiesDescriptor values": whatever the number of groups per level and of leaves.  The one
+\* bound the statement's library documents is on NESTING (a parser may refuse what is nested deeper than
+\* NestingBound; the statement does not say it must): depth is the length of the longest chain of
+\* EntitiesDescriptor elements inside one another, counted here from the value's shape, not from the parser
+NestingOf(v) == (IF v.nested > 0 /\ v.tree.chain + Len(v.tree.fan) < 2 THEN 2 ELSE v.tree.chain + Len(v.tree.fan))
+EsdClass(v) == IF NestingOf(v) <= NestingBound THEN "MustAccept" ELSE "DontCare"
+EsdFixedPoint == Done /\ kind = "esd" /\ EsdClass(vec) = "MustAccept" =>
+                                          /\ ~back[1].err /\ Len(back) = 2 /\ ~back[2].err /\ back[2].v = back[1].v
                                           /\ CdSame(vec.cd, back[1].v.cd) /\ back[1].v.id = vec.id
+                                          /\ back[1].v.tree = vec.tree
+\* design level (not in the statement): the guard the counter exists for - nesting beyond the bound is refused
+NestingGuardKept == Done /\ kind = "esd" /\ NestingOf(vec) > NestingBound => back[1].err
 \* "every metadata document the library generates for an SP or IdP re-parses", however it is handed to the encoder
 GeneratedReparses == Done /\ kind \in {"spmd", "idpmd"} => back[1]
 
@@ -967,7 +1040,7 @@ VecOut ==
     [] kind = "md"      -> [prop |-> "C15", kind |-> kind, how |-> HowOut, found |-> Found("EntityDescriptor", how), in |-> vec,
                             class |-> MdClass(vec), gens |-> back]
     [] kind = "esd"     -> [prop |-> "C15", kind |-> kind, how |-> HowOut, found |-> Found("EntitiesDescriptor", how), in |-> vec,
-                            class |-> "MustAccept", gens |-> back]
+                            class |-> EsdClass(vec), depth |-> NestingOf(vec), groups |-> EsdElements(vec), gens |-> back]
     [] kind = "slots"   -> [prop |-> "C15", kind |-> kind, how |-> HowOut, ty |-> vec.ty, recv |-> Receiver(vec.ty), vals |-> vec.vals,
                             slots |-> TypeTab[vec.ty].slots, sfound |-> SlotFound(vec), stext |-> text, class |-> SlotsClass(vec),
                             sback |-> back]
